@@ -47,9 +47,15 @@ RULE = (
     "pending env seeds and — always when there is an action-noise object, else 25% — different leftovers inside the shared "
     "configuration objects from an earlier poisoning run with the same kwargs; C: seed+1), <= 60 env steps, net_arch=[4]. non-trivial = a case whose run draws from at least "
     "three distinct seeded generator families after construction and performs at least one gradient update; "
-    "distinct = distinct canonical configuration (without the ambient values)"
+    "distinct = distinct canonical configuration (without the ambient values). Plus (xproc) per run 12 (thorough 120) "
+    "configurations with Dict observations of 2-4 keys (vector keys, goal keys for HER, vector+image keys; "
+    "MultiInputPolicy), any algorithm, DummyVecEnv / plain env / VecNormalize, <= 32 steps, each executed in four "
+    "separate child interpreters (PYTHONHASHSEED=1, 2, 3 and unset; same case, same ambient seed) whose digests must "
+    "all be equal, and once with seed+1, which must differ"
 )
 STREAMS = {
+    "xproc": "(oracle only, no model) the same seeded run in separate child interpreters with PYTHONHASHSEED=1/2/3/unset: "
+             "all digests of parameters, optimizer state, buffer, actions and predicted actions equal; seed+1 differs",
     "sites": "set of generators that advanced in each segment of run A: model.must <= measured <= model.may",
     "lowness": "per boundary and generator: state(A)==state(B) iff the model's taint analysis marks it seed-determined",
     "delivery": "(seed, options) received by sub-env i at each reset == model (seed+i AND the pending options at the first "
@@ -798,13 +804,157 @@ def gen_case(rng, thorough, widen):
     return c
 
 
+# =================================================================================================
+# cross-process differential: the same seeded run in separate interpreters with different PYTHONHASHSEED
+# =================================================================================================
+HASHSEEDS = ["1", "2", "3", None]   # None: PYTHONHASHSEED unset (random per process)
+
+
+def gen_xproc_case(rng, thorough):
+    """a normal configuration with a Dict observation space of several keys (MultiInputPolicy / CombinedExtractor),
+    run once per child interpreter"""
+    while True:
+        c = gen_case(rng, thorough, False)
+        if c["wrap"] == "subproc":
+            c["wrap"] = "dummy"
+        if not c.get("her"):
+            c["obs"] = rng.weighted([("dict", 2), ("dict4", 4), ]
+                                  # (an image key under VecNormalize needs a hand-placed VecTransposeImage: not generated)
+                                  + ([("dictimg", 2)] if c["wrap"] != "vecnorm" else []))
+            c["opt_mem"] = False
+        c["kind"] = "xproc"
+        c["hashseeds"] = list(HASHSEEDS)
+        c["learn_calls"] = 1
+        c["steps"] = min(c["steps"], 32)
+        return c
+
+
+def child_main():
+    """entry point of a child interpreter: run every case once (and once more with seed+1 when asked) and print the
+    digests; all randomness of the run comes from the case, the only thing that differs between children is the
+    process (PYTHONHASHSEED, addresses, import order effects)"""
+    import json
+    import sys
+
+    from harness import common
+
+    common.setup_repo_import()
+    req = json.loads(sys.stdin.read())
+    out = []
+    import traceback
+
+    for case in req["cases"]:
+        try:
+            r = {"same": run_once(case, case["seed"], case["ambA"])["dig"]}
+            if req.get("other_seed"):
+                r["other"] = run_once(case, case["seed"] + 1, case["ambA"])["dig"]
+        except Exception:  # noqa  (reported for this case only)
+            r = {"error": traceback.format_exc()[-1500:]}
+        out.append(r)
+    sys.stdout.write("\nC10CHILD " + json.dumps(out) + "\n")
+    sys.stdout.flush()
+
+
+def run_children(cases, hashseeds):
+    """one child interpreter per PYTHONHASHSEED value, all running the same list of cases, in parallel"""
+    import json
+    import os
+    import subprocess
+    import sys
+
+    from harness.common import REPO, VERIF, InfraError
+
+    procs = []
+    for i, hs in enumerate(hashseeds):
+        env = dict(os.environ)
+        env["PYTHONPATH"] = f"{REPO}:{VERIF}"
+        env["SB3_REPO"] = REPO
+        env["OMP_NUM_THREADS"] = "1"
+        env["MKL_NUM_THREADS"] = "1"
+        env.pop("PYTHONHASHSEED", None)
+        if hs is not None:
+            env["PYTHONHASHSEED"] = str(hs)
+        p = subprocess.Popen([sys.executable, "-c", "from harness import c10; c10.child_main()"], cwd=VERIF, env=env,
+                             stdin=subprocess.PIPE, stdout=subprocess.PIPE, stderr=subprocess.PIPE)
+        p.stdin.write(json.dumps({"cases": cases, "other_seed": i == 0}).encode())
+        p.stdin.close()
+        procs.append(p)
+    results = []
+    for hs, p in zip(hashseeds, procs):
+        try:
+            so = p.stdout.read()
+            se = p.stderr.read()
+            p.wait(timeout=900)
+        except Exception as e:  # noqa
+            p.kill()
+            raise InfraError(f"C10 child interpreter (PYTHONHASHSEED={hs}) did not finish: {e}")
+        line = [l for l in so.decode(errors="replace").splitlines() if l.startswith("C10CHILD ")]
+        if p.returncode != 0 or not line:
+            results.append({"error": se.decode(errors="replace")[-1500:]})
+        else:
+            results.append({"digs": json.loads(line[-1][len("C10CHILD "):])})
+    return results
+
+
+def check_xproc(ctx, cases):
+    """oracle only (hash randomisation is not in the Lean model): every child must print the same digests for the same
+    seed; the seed+1 run must differ"""
+    rep = ctx.report
+    if not cases:
+        return
+    by_hs = {}
+    for c in cases:
+        by_hs.setdefault(tuple(c["hashseeds"]), []).append(c)
+    for hss, group in by_hs.items():
+        res = run_children(group, list(hss))
+        for ci, case in enumerate(group):
+            rep.count("kind:xproc")
+            rep.count(f"xproc:algo:{case['algo']}")
+            rep.count(f"xproc:obs:{case['obs']}")
+            rep.count(f"xproc:wrap:{case['wrap']}")
+            if case.get("her"):
+                rep.count("xproc:her")
+            rep.case(case, config_key(case))
+            errs = [(hs, r["error"]) for hs, r in zip(hss, res) if "error" in r]
+            errs += [(hs, r["digs"][ci]["error"]) for hs, r in zip(hss, res) if "digs" in r and "error" in r["digs"][ci]]
+            if errs:
+                rep.violation("unexpected exception from the implementation on a valid input (child interpreter)", case,
+                              {"exception": "child", "kind": "xproc"}, detail={"PYTHONHASHSEED": errs[0][0], "stderr": errs[0][1]})
+                continue
+            ref = {"dig": res[0]["digs"][ci]["same"]}
+            bad = None
+            for hs, r in zip(hss[1:], res[1:]):
+                d = compare_runs(ref, {"dig": r["digs"][ci]["same"]})
+                rep.count("xproc:children_compared")
+                if d:
+                    bad = (hs, d)
+                    break
+            if bad is not None:
+                comp = next(c for c in COMPONENT_ORDER if c in bad[1])
+                rep.violation("two runs with the same seed, algorithm, configuration and environment constructor in two "
+                              "separate interpreter launches (different PYTHONHASHSEED) are not bit-identical", case,
+                              {"kind": "not_reproducible_across_processes", "component": comp},
+                              {"PYTHONHASHSEED": [hss[0], bad[0]], "differing": {k: v[:6] for k, v in bad[1].items()}})
+                continue
+            dAC = compare_runs(ref, {"dig": res[0]["digs"][ci]["other"]})
+            for comp in ("params", "buffer", "actions"):
+                if comp not in dAC:
+                    rep.violation("changing only the seed does not change the result", case,
+                                  {"kind": "seed_ignored", "component": comp, "xproc": True}, {"differing": sorted(dAC)})
+                    break
+            else:
+                rep.agree()
+
+
 def config_key(case):
     return {k: v for k, v in case.items() if k not in ("ambA", "ambB")}
 
 
 def gen_cases(ctx):
     n = ctx.budget(120, 1200)
-    return [gen_case(ctx.rng, ctx.thorough, ctx.widen) for _ in range(n)]
+    cases = [gen_case(ctx.rng, ctx.thorough, ctx.widen) for _ in range(n)]
+    nx = ctx.budget(12, 120)
+    return cases + [gen_xproc_case(ctx.rng, ctx.thorough) for _ in range(nx)]
 
 
 def shrink_candidates(case):
@@ -813,6 +963,23 @@ def shrink_candidates(case):
         c.update(kw)
         return c
 
+    if case.get("kind") == "xproc":   # every candidate costs one round of child interpreters: keep them few
+        if case["wrap"] != "dummy":
+            yield alt(wrap="dummy")
+        if case["n_envs"] > 1:
+            yield alt(n_envs=1, opts=None, opts_when=None, opts_tags=None,
+                      noise=(case["noise"][4:] if (case.get("noise") or "").startswith("vec_") else case.get("noise")))
+        if case.get("her"):
+            yield alt(her=None, obs="dict4")
+        if case["obs"] == "dictimg":
+            yield alt(obs="dict")
+        if case.get("noise") or case.get("cfg_poison") or case.get("opts") or case.get("use_sde"):
+            yield alt(noise=None, cfg_poison=False, opts=None, opts_when=None, opts_tags=None, use_sde=False)
+        if case["steps"] > 8 and not case.get("her"):
+            yield alt(steps=8)
+        if len(case["hashseeds"]) > 2:
+            yield alt(hashseeds=case["hashseeds"][:2])
+        return
     if case.get("learn_calls", 1) > 1:
         yield alt(learn_calls=1)
     if case.get("opts"):
@@ -1141,7 +1308,10 @@ def nontrivial(case, A):
 def check_cases(ctx, cases):
     rep = ctx.report
     ops, plan = [], []
+    check_xproc(ctx, [c for c in cases if c.get("kind") == "xproc"])
     for case in cases:
+        if case.get("kind") == "xproc":
+            continue
         rep.count(f"algo:{case['algo']}")
         rep.count(f"n_envs:{case['n_envs']}")
         rep.count(f"wrap:{case['wrap']}")
